@@ -85,6 +85,13 @@ pub fn mutations(c: &V, out: &mut Vec<(String, V)>, rebuild: &dyn Fn(V) -> V, in
                 let mut w = v.clone(); w.push(v[i].clone()); out.push((format!("array-dup-{}", i.min(1)), rebuild(V::Array(w))));
                 let mut w = v.clone(); w.insert(i, v[i].clone()); out.push((format!("array-dup-adjacent-{}", i.min(1)), rebuild(V::Array(w))));
                 let mut w = v.clone(); w.remove(i); out.push((format!("array-drop-{}-len{}", i.min(1), w.len().min(2)), rebuild(V::Array(w))));
+                // the same element a second time IN ANOTHER FORM: its elided placeholder (the bare digest) directly before and directly after it -
+                // a repeated digest although no two elements are byte-identical
+                if i >= 1 && !matches!(v[i], V::Bytes(_)) { if let Ok((m, _)) = grammar::recognise(&dcbor::bytes(&V::Tag(200, Box::new(v[i].clone())))) {
+                    let ph = V::Bytes(m.digest().to_vec());
+                    let mut w = v.clone(); w.insert(i, ph.clone()); out.push(("array-dup-elided-form-before".into(), rebuild(V::Array(w))));
+                    let mut w = v.clone(); w.insert(i + 1, ph); out.push(("array-dup-elided-form-after".into(), rebuild(V::Array(w))));
+                } }
             }
             for (n, j) in junk() { let mut w = v.clone(); w.push(j.clone()); out.push((format!("array-append-{n}"), rebuild(V::Array(w)))); let mut w = v.clone(); w.insert(1.min(v.len()), j); out.push((format!("array-insert-{n}"), rebuild(V::Array(w)))) }
             for i in 0..v.len() { if n > 12 && !(i <= 2 || i == n / 2 || i + 2 >= n) { continue } let vv = v.clone(); let rb = move |x: V| { let mut w = vv.clone(); w[i] = x; V::Array(w) }; mutations(&v[i], out, &|x| rebuild(rb(x)), false) }
@@ -185,7 +192,11 @@ pub fn seeds(w: usize) -> Vec<(String, Vec<u8>)> {
     let nb = trees.len() - families::decode_only().len() - families::nsn().len() - families::valued_few().len();
     for (ti, m) in trees.iter().enumerate() {
         let e = if ti < nb { bind::build(m, 0) } else { bind::build_route(m, bind::Route::Decode) };
-        out.push((format!("tree{ti}:{}", m.show()), e.to_cbor_data()));
+        let ib = e.to_cbor_data();
+        // the MODEL's encoding of the same tree is an input in its own right whenever the implementation's encoder writes something else
+        // (then the decoder is judged on the specified form, not only on what this encoder happens to emit)
+        if let Some(mb) = m.encode() { if mb != ib { out.push((format!("tree{ti}-model-bytes:{}", m.show()), mb)) } }
+        out.push((format!("tree{ti}:{}", m.show()), ib));
     }
     let base = Envelope::new("Alice").add_assertion("knows", "Bob").add_assertion("knows", "Carol").add_assertion(known_values::NOTE, 7);
     let ex: Vec<(&str, Envelope)> = vec![
